@@ -393,6 +393,8 @@ package fs
 //@   modifies fopen, fpos, iofaults
 //@   ensures iofaults >= old(iofaults) && fsw == old(fsw)
 //@   ensures err == nil ==> v != nil && fresh(v) && wfISO(v) && imgDef(v) && !v.isClosed && v.offset == 0
+//@   ensures err == nil ==> fresh(v.files.$arr) && fresh(v.fsBuf.$arr)
+//@   ensures err == nil ==> v.fs == fs && v.ps3Mode == ps3Mode && (root != "" ==> v.root == root) @built-from-these-arguments
 //@   ensures err != nil ==> v == nil
 //@   ensures forall g {fopen[g]} :: fopen[g] ==> old(fopen[g]) @temporaries-closed
 //@   ensures forall g {fpos[g]} :: old(allocated(g)) ==> fpos[g] == old(fpos[g])
@@ -415,7 +417,7 @@ package fs
 //@   ensures iofaults >= old(iofaults)
 //@   ensures[C05] virtual && modifying ==> err == syscall.EPERM && f == nil && fsw == old(fsw) && fopen == old(fopen) @generated-images-are-read-only
 //@   ensures[C05] !modifying ==> fsw == old(fsw) @read-only-open-never-mutates
-//@   ensures[C11] virtual && !modifying && err == nil ==> typeis(f, "*fs.VirtualISO") @virtual-prefix-selects-generated-image
+//@   ensures[C11] virtual && !modifying && err == nil ==> typeis(f, "*fs.VirtualISO") && cast(f, "fs.VirtualISO").ps3Mode == !hasprefix(path, "/***DVD***/") && cast(f, "fs.VirtualISO").fs == fsys.Fs @virtual-prefix-selects-generated-image
 //@   ensures[C11] !virtual && modifying && err == nil ==> !typeis(f, "*fs.EncryptedISO") && !typeis(f, "*fs.ISO3k3y") && !typeis(f, "*fs.VirtualISO") && fpath[f] == path @opened-for-writing-is-passed-through
 //@   ensures[C11] !virtual && !modifying && err == nil && typeis(f, "*fs.EncryptedISO") ==> lowered(fileext(path)) == ".iso" && viewfile[f] != nil && fpath[viewfile[f]] == path @redump-view-only-for-iso
 //@   ensures[C11] !virtual && !modifying && err == nil && typeis(f, "*fs.EncryptedISO") && pexists(adjacent) && iofaults == old(iofaults) ==> forall q :: 0 <= q && q < 16 ==> viewkeyarr[f][viewkeyoff[f] + q] == hexkey(pcontent(adjacent))[q] @adjacent-key-used
@@ -424,3 +426,23 @@ package fs
 //@   ensures[C11] !virtual && !modifying && err == nil && !typeis(f, "*fs.EncryptedISO") && !typeis(f, "*fs.ISO3k3y") ==> fpath[f] == path && fcontent[f] == pcontent(path) @everything-else-is-passed-through
 //@   ensures[C13] err != nil ==> f == nil && (forall g {fopen[g]} :: fopen[g] ==> old(fopen[g])) @nothing-left-open-on-failure
 //@   ensures[C13] err == nil ==> f != nil && (forall g {fopen[g]} :: fopen[g] && !old(fopen[g]) ==> g == f || g == viewfile[f] || g == viewfile[viewfile[f]]) @only-the-result-stays-open
+
+//@ func VirtualISO.Close results(err)
+//@   tags C13,C09,C04
+//@   requires viso != nil
+//@   alloc 1<<50
+//@   modifies viso.isClosed, elems(viso.files).file, fopen
+//@   ensures[C13] viso.isClosed @closed
+//@   ensures[C13] !old(viso.isClosed) ==> forall y {at(viso.files, y).file} :: base(viso.files) <= y && y < end(viso.files) ==> at(viso.files, y).file == nil && (old(at(viso.files, y).file) != nil ==> !fopen[old(at(viso.files, y).file)]) @every-member-file-closed
+//@   ensures[C13] forall g {fopen[g]} :: fopen[g] ==> old(fopen[g]) @nothing-opened
+//@   loop 1 invariant viso.isClosed @is-closed
+//@   loop 1 invariant len(errs) <= i @errs
+//@   loop 1 invariant forall g {fopen[g]} :: fopen[g] ==> old(fopen[g]) @monotone
+//@   loop 1 invariant forall y {at(viso.files, y).file} :: base(viso.files) <= y && y < base(viso.files) + i ==> at(viso.files, y).file == nil && (old(at(viso.files, y).file) != nil ==> !fopen[old(at(viso.files, y).file)]) @closed-so-far
+//@   loop 1 invariant forall y {at(viso.files, y).file} :: base(viso.files) + i <= y && y < end(viso.files) ==> at(viso.files, y).file == old(at(viso.files, y).file) @rest-untouched
+
+//@ func fileItem.closeOpened results(err)
+//@   tags C13,C04
+//@   requires i != nil
+//@   modifies i.file, fopen
+//@   ensures[C13] i.file == nil && fopen == (old(i.file) != nil ? mapset(old(fopen), old(i.file), false) : old(fopen)) @closed-and-cleared
